@@ -458,8 +458,10 @@ Proof.
     - destruct (reload hashf (st w) fo (next_pool w)) as [[[s' r] n'] new]. inversion S0; subst. cbn. auto.
     - assert (c <> c0) by congruence.
       destruct (cl_lookup c0 (clients w)); [inversion S0; subst; auto|].
-      destruct (plookup (d, u) (pools (st w))) as [[h p]|]; inversion S0; subst; auto.
-      cbn [clients servers with_clients]. rewrite cl_lookup_set_other by assumption. auto.
+      destruct (plookup (d, u) (pools (st w))) as [[h p]|]; [|inversion S0; subst; auto].
+      destruct (existsb (Nat.eqb p) (validated w)); inversion S0; subst;
+        cbn [clients servers with_clients]; rewrite cl_lookup_set_other by assumption; split; auto.
+      right. assumption.
     - assert (c <> c0) by congruence.
       destruct (cl_lookup c0 (clients w)) as [y|]; [|inversion S0; subst; auto].
       destruct (cheld y); [inversion S0; subst; auto|].
@@ -516,7 +518,8 @@ Proof.
   rewrite gc_st, gc_objs. change (next_pool (gc w1)) with (next_pool w1).
   destruct o as [fo|c0 d u|c0|c0|c0]; cbn [step0 actor] in *; try congruence.
   - destruct (cl_lookup c0 (clients w)); [inversion S0; subst; auto|].
-    destruct (plookup (d, u) (pools (st w))) as [[h p]|]; inversion S0; subst; auto.
+    destruct (plookup (d, u) (pools (st w))) as [[h p]|]; [|inversion S0; subst; auto].
+    destruct (existsb (Nat.eqb p) (validated w)); inversion S0; subst; auto.
   - destruct (cl_lookup c0 (clients w)) as [y|]; [|inversion S0; subst; auto].
     destruct (cheld y); [inversion S0; subst; auto|].
     destruct (plookup (cdb y, cuser y) (pools (st w))) as [[h p]|]; [|inversion S0; subst; auto].
@@ -618,10 +621,12 @@ Proof.
       apply F2 in H1. apply OK1 in H2. lia.
     + intros c x L. destruct (CO _ _ L) as [pd A]. exists pd. apply in_or_app. auto.
   - destruct (cl_lookup c0 (clients w)) eqn:L0; [inversion S0; subst; repeat split; auto|].
-    destruct (plookup (d, u) (pools (st w))) as [[h p]|] eqn:Lp; inversion S0; subst; [|repeat split; auto].
-    cbn. repeat split; auto. intros c x L. destruct (Nat.eq_dec c c0) as [->|Hne].
-    + rewrite cl_lookup_set_same in L. inversion L; subst. cbn. destruct (SO _ _ _ Lp) as [pd [A _]]. eauto.
-    + rewrite cl_lookup_set_other in L by assumption. eauto.
+    destruct (plookup (d, u) (pools (st w))) as [[h p]|] eqn:Lp; [|inversion S0; subst; repeat split; auto].
+    assert (G : clients_ok (objs w) (cl_set c0 {| cdb := d; cuser := u; cclone := p; cheld := None |} (clients w))).
+    { intros c x L. destruct (Nat.eq_dec c c0) as [->|Hne].
+      - rewrite cl_lookup_set_same in L. inversion L; subst. cbn. destruct (SO _ _ _ Lp) as [pd [A _]]. eauto.
+      - rewrite cl_lookup_set_other in L by assumption. eauto. }
+    destruct (existsb (Nat.eqb p) (validated w)); inversion S0; subst; cbn; repeat split; auto.
   - destruct (cl_lookup c0 (clients w)) as [y|] eqn:L0; [|inversion S0; subst; repeat split; auto].
     destruct (cheld y); [inversion S0; subst; repeat split; auto|].
     destruct (plookup (cdb y, cuser y) (pools (st w))) as [[h p]|] eqn:Lp.
@@ -731,7 +736,7 @@ Proof. intros d u. cbn. reflexivity. Qed.
 (** ------------------------------------------------------------------ world-level forms *)
 
 Lemma world_eta : forall w, {| st := st w; objs := objs w; next_pool := next_pool w; clients := clients w;
-                               servers := servers w; next_srv := next_srv w |} = w.
+                               servers := servers w; next_srv := next_srv w; validated := validated w |} = w.
 Proof. destruct w; reflexivity. Qed.
 
 Lemma invalid_noop_world : forall w fo, settled w -> invalid fo -> step hashf w (OReload fo) = (w, ObReload RErr).
@@ -863,7 +868,7 @@ Definition f12_ops : list op :=
 Lemma partial_refuted :
   Forall op_wf f12_ops /\
   exists w, run idh empty_world f12_ops =
-              (w, [ObReload (ROk true); ObConnected 0; ObReload RErr; ObReload (ROk false); ObBegun 0 0 true]) /\
+              (w, [ObReload (ROk true); ObConnected 0; ObReload RErr; ObReload (ROk false); ObBegun 0 0 false]) /\
             config (st w) = f12_new /\ pools (st w) = [((0, 0), (10, 0))] /\ objs w = [(0, ((0, 0), 10))] /\
             ~ agree idh w.
 Proof.
